@@ -9,7 +9,8 @@ for d in /verif/seeded/*/; do
   name=$(basename $d)
   I=$((I+1))
   if [ -n "$SHARD" ] && [ $((I % N)) -ne $((K % N)) ]; then continue; fi
-  pid=$(/venv/bin/python -c "import json;print(json.load(open('$d/meta.json'))['property'])")
+  # the check that is expected to catch it: the one named first in detected_by (a few seeds of property X are caught by the check of Y)
+  pid=$(/venv/bin/python -c "import json,re;m=json.load(open('$d/meta.json'));r=re.match(r'\s*(C\d\d)',str(m.get('detected_by','')));print(r.group(1) if r else m['property'])")
   WT=/tmp/wt_allseeds_$$
   git -C /repo worktree add --detach $WT HEAD -q || exit 2
   if ( cd $WT && git apply $d/patch.diff ) 2>/dev/null; then
